@@ -9,8 +9,13 @@ REPO = os.environ.get("VERIF_REPO", "/repo")
 SPECS = os.path.join(VERIF, "specs")
 BUILD = os.path.join(VERIF, ".build")
 WORKROOT = os.path.join(VERIF, ".work")
+if REPO != "/repo":
+    # development aid (seeded-change trials on a scratch worktree): own build directory, go.mod redirected
+    BUILD = os.path.join(VERIF, ".build-" + re.sub(r"[^A-Za-z0-9]+", "_", REPO))
+    os.environ["VERIF_EVIDENCE_DIR"] = os.path.join(BUILD, "evidence")
 TLA_CP = "/opt/veriftools/tla/tla2tools.jar:/opt/veriftools/tla/CommunityModules-deps.jar"
 NCPU = os.cpu_count() or 4
+EVID = os.environ.get("VERIF_EVIDENCE_DIR") or os.path.join(VERIF, "evidence")
 
 
 class Machinery(Exception):
@@ -34,9 +39,16 @@ def build_vdrive(race=False):
     """Builds harness/cmd/vdrive against /repo's current working tree with -tags verif."""
     os.makedirs(BUILD, exist_ok=True)
     h = os.path.join(VERIF, "harness")
-    shutil.copyfile(os.path.join(REPO, "go.sum"), os.path.join(h, "go.sum"))
     out = os.path.join(BUILD, "vdrive-race" if race else "vdrive")
-    cmd = ["go", "build", "-tags", "verif"] + (["-race"] if race else []) + ["-o", out, "./cmd/vdrive"]
+    mod = []
+    if REPO == "/repo":
+        shutil.copyfile(os.path.join(REPO, "go.sum"), os.path.join(h, "go.sum"))
+    else:
+        gm = open(os.path.join(h, "go.mod")).read().replace("=> /repo", "=> " + REPO)
+        open(os.path.join(BUILD, "go.mod"), "w").write(gm)
+        shutil.copyfile(os.path.join(REPO, "go.sum"), os.path.join(BUILD, "go.sum"))
+        mod = ["-modfile=" + os.path.join(BUILD, "go.mod")]
+    cmd = ["go", "build", "-tags", "verif"] + mod + (["-race"] if race else []) + ["-o", out, "./cmd/vdrive"]
     t0 = time.time()
     p = subprocess.run(cmd, cwd=h, env=goenv(), capture_output=True, text=True)
     if p.returncode != 0:
@@ -262,10 +274,10 @@ def load_known():
 
 
 def write_evidence(pid, tier, seed, level, coverage, assumptions, wall, violations):
-    os.makedirs(os.path.join(VERIF, "evidence"), exist_ok=True)
+    os.makedirs(EVID, exist_ok=True)
     ev = dict(property_id=pid, tier=tier, seed=int(seed), level=level, coverage=coverage, assumptions=assumptions,
               wall_s=round(wall, 2), violations=int(violations))
-    p = os.path.join(VERIF, "evidence", pid + ".json")
+    p = os.path.join(EVID, pid + ".json")
     with open(p + ".tmp", "w") as f:
         json.dump(ev, f, indent=1, sort_keys=True)
     os.replace(p + ".tmp", p)
@@ -273,7 +285,7 @@ def write_evidence(pid, tier, seed, level, coverage, assumptions, wall, violatio
 
 
 def write_replay(pid, n, payload):
-    d = os.path.join(VERIF, "evidence", "replays")
+    d = os.path.join(EVID, "replays")
     os.makedirs(d, exist_ok=True)
     p = os.path.join(d, "%s-%d.json" % (pid, n))
     with open(p, "w") as f:
